@@ -211,6 +211,20 @@ theorem flags_python_like (t : List Char) (h : HasCall t) (hu : ∀ c ∈ t, isU
     have := hu c hc
     simp [isExcelCall, hid, this] at hx
 
+/-- **Completeness as the property states it**: a text with call syntax in which no found call fragment is an upper-case (Excel)
+    function call is listed. -/
+theorem flags_when_no_excel_call (t : List Char) (h : HasCall t)
+    (hno : ∀ f ∈ scanCalls (t.length + 1) t, isExcelCall f = false) : suspicious t ≠ [] := by
+  have hs := scan_complete (t.length + 1) t (by omega) h
+  unfold suspicious
+  intro hnil
+  simp only [List.map_eq_nil_iff, List.filter_eq_nil_iff] at hnil
+  obtain ⟨f, rest', hf⟩ := List.exists_cons_of_ne_nil hs
+  have hmem : f ∈ scanCalls (t.length + 1) t := by rw [hf]; simp
+  have := hnil f hmem
+  rw [hno f hmem] at this
+  simp at this
+
 /-- with the check disabled the safety exception is never raised; enabled, it is raised exactly when a cell is listed -/
 theorem disabled_never_raises (report : List (List Char × List (List Char))) : gate false report = .ok () := rfl
 
